@@ -73,6 +73,17 @@ def mergeTexts : List Node → List Node
   | [] => []
 termination_by l => l.length
 
+mutual
+/-- adjacent text nodes merge at every level of the re-parsed subtree -/
+def mergeDeep : Node → Node
+  | .elem i t a ks => .elem i t a (mergeTexts (mergeDeepL ks))
+  | .text i d => .text i d
+  | .other i k => .other i k
+def mergeDeepL : List Node → List Node
+  | [] => []
+  | k :: ks => mergeDeep k :: mergeDeepL ks
+end
+
 def trimFirstText : List Node → List Node
   | .text i d :: rest =>
     let d' := trimLeftU d.toList
@@ -90,7 +101,7 @@ def synthDivId : Nat := synthBase
 
 def bodyToDiv (n : Node) : Node :=
   match n with
-  | .elem _ "body" _ ks => .elem synthDivId "div" [] (trimLastText (trimFirstText (mergeTexts ks)))
+  | .elem _ "body" _ ks => .elem synthDivId "div" [] (trimLastText (trimFirstText (mergeTexts (mergeDeepL ks))))
   | _ => n
 
 /-! ### climbing until the root is not inline -/
